@@ -190,7 +190,7 @@ Theorem c20_status_firing_iff : forall now g alerts,
 Proof. exact status_firing_iff. Qed.
 
 (* common labels / annotations = intersection over the listed alerts of (name, value) pairs (code after fix
-   dfda78a; label sets have unique names, as Go maps do) *)
+   c471630; label sets have unique names, as Go maps do) *)
 Theorem c20_common_labels_is_intersection : forall now g alerts k v,
   Forall (fun a => uniq (a_labels a)) alerts ->
   (k, v) ∈ d_common_labels (template_data now g alerts) <->
